@@ -71,6 +71,38 @@ let leaf ws = match ws with
       let d = !st in let b = Buffer.create 32 in
       for i = 0 to int_of_z mc do Buffer.add_string b (string_of_z (d (z_of_int i)) ^ " ") done;
       Buffer.contents b ^ Printf.sprintf "%s %d" (string_of_z (Gen_OpenN1_ops.pvGetCount rv mc d)) (if Gen_OpenN1_ops.coq_IsFull rv mc d then 1 else 0) end
+  | "p4ops" :: toks ->
+    (* one BucketLimP4<.., 4, .., true> bucket (hashCount 4, minMemPoolIndex 2): generated AddCrt / Remove / Clear *)
+    let hh = z_of_int 4 and mm = z_of_int 2 in
+    let zi = z_of_int in
+    let ((s0, p0), t0) = Gen_P4A.pvSetEmpty hh (fun _ -> zi 0) (zi 0) (zi 0) mm in
+    let st = ref (s0, p0, t0) in let bad = ref "" in
+    Stdlib.List.iter (fun tok -> if !bad = "" then begin
+      let (s, p, t) = !st in
+      let f = Stdlib.List.map z_of_string (Stdlib.List.tl (String.split_on_char ':' tok)) in
+      match tok.[0], f with
+      | 'A', [hc; lbc; pr] ->
+        (match Gen_P4A.coq_AddCrt hh mm s p t hc lbc pr (zi 1001) (zi 1001) (zi 1002) (zi 1002) (zi 1003) (zi 1003) (zi 1004) (zi 1004) (zi 1005) (zi 1005) with
+         | GenPrelude.Ok (((_, s'), p'), t') -> st := (s', p', t') | _ -> bad := "stuck")
+      | 'R', [j] ->
+        (match Gen_P4A.coq_Remove hh mm s p t (if int_of_z (Gen_P4A.pvGetCount s p t) = 1 then p else zi 0) j with
+         | GenPrelude.Ok (((_, s'), p'), t') -> st := (s', p', t') | _ -> bad := "stuck")
+      | _ -> let ((s', p'), t') = Gen_P4A.coq_Clear hh mm s p t in st := (s', p', t') end) toks;
+    if !bad <> "" then !bad else begin
+      let (s, p, t) = !st in let g i = string_of_z (s (zi i)) in
+      Printf.sprintf "%s %s %s %s %s %d %d %s %d" (g 0) (g 1) (g 2) (g 3) (string_of_z (Gen_P4A.pvGetCount s p t))
+        (if Gen_P4A.coq_IsFull s p t then 1 else 0) (if Gen_P4A.coq_WasFull s p t then 1 else 0)
+        (string_of_z (Gen_P4A.pvGetMemPoolIndex s p t)) (if int_of_z p = 0 then 0 else 1) end
+  | "oneops" :: toks ->
+    let st = ref (z_of_int 0) in let bad = ref "" in
+    Stdlib.List.iter (fun tok -> if !bad = "" then begin
+      let f = Stdlib.List.map z_of_string (Stdlib.List.tl (String.split_on_char ':' tok)) in
+      match tok.[0], f with
+      | 'A', [hc] -> (match Gen_One.coq_AddCrt !st hc with GenPrelude.Ok (_, s') -> st := s' | _ -> bad := "stuck")
+      | 'R', _ -> (match Gen_One.coq_Remove !st (z_of_int 7) (z_of_int 7) with GenPrelude.Ok (_, s') -> st := s' | _ -> bad := "stuck")
+      | _ -> st := Gen_One.coq_Clear !st end) toks;
+    if !bad <> "" then !bad else
+      Printf.sprintf "%s %d %d" (string_of_z !st) (if Gen_One.coq_IsFull !st then 1 else 0) (if Gen_One.coq_WasFull !st then 1 else 0)
   | ["cnt"; l] -> string_of_z (Gen_Buckets.coq_GetCount (z_of_string l))
   | ["rsv"; kind; nl0; n] ->
     (* generated HashSet::Reserve size loop over the generated policy of that bucket kind *)
